@@ -1,10 +1,12 @@
 package harness
 
 import (
-	"strings"
 	"encoding/json"
+	"fmt"
 	"os"
+	"path/filepath"
 	"strconv"
+	"strings"
 	"testing"
 	"testing/synctest"
 )
@@ -28,16 +30,42 @@ func nOfPayload(d Delivered) (int, bool) {
 	return 0, false
 }
 
-// RunHistory executes ops (generated on the fly when gen != nil) in a fresh world and returns the
-// executed operations, their results and the protocol trace.
-func RunHistory(t *testing.T, seed int64, gen *Gen, fixed []Op, nops int) (ops []Op, results []*Result, lines []string) {
+// History is everything one executed history produced.
+type History struct {
+	Seed     int64
+	Ops      []Op
+	Results  []*Result
+	Lines    []string
+	Findings []Finding
+	Counts   map[string]int
+}
+
+// drainOps: advance past every back-off and pull everything, three times
+func drainOps(subs []string) []Op {
+	var ops []Op
+	for round := 0; round < 3; round++ {
+		ops = append(ops, Op{K: "advance", D: 700*Sec + 1234567})
+		for _, s := range subs {
+			for k := 0; k < 3; k++ {
+				ops = append(ops, Op{K: "pull", Sub: s, Max: 100})
+			}
+		}
+	}
+	return ops
+}
+
+// RunHistory executes ops (generated on the fly when gen != nil) in a fresh world.
+func RunHistory(t *testing.T, seed int64, gen *Gen, fixed []Op, nops int, drain bool) *History {
+	h := &History{Seed: seed}
 	synctest.Test(t, func(t *testing.T) {
 		w := NewWorld(t, seed)
 		defer w.Close()
+		mon := NewMonitors()
 		do := func(op Op) {
 			res := w.Exec(op)
-			ops = append(ops, op)
-			results = append(results, res)
+			h.Ops = append(h.Ops, op)
+			h.Results = append(h.Results, res)
+			mon.Observe(len(h.Ops)-1, res)
 			if gen != nil {
 				gen.Observe(res, nOfPayload)
 			}
@@ -51,14 +79,398 @@ func RunHistory(t *testing.T, seed int64, gen *Gen, fixed []Op, nops int) (ops [
 				// keep clear of stored deadlines: a small odd tick after every operation
 				do(Op{K: "advance", D: Ms + int64(gen.R.Intn(999))*1000 + 1})
 			}
+			if drain {
+				var live []string
+				for _, s := range gen.Subs {
+					if s.live {
+						live = append(live, s.name)
+					}
+				}
+				for _, op := range drainOps(live) {
+					do(op)
+				}
+			}
 		} else {
 			for _, op := range fixed {
 				do(op)
 			}
 		}
-		lines = w.Lines
+		h.Lines = w.Lines
+		h.Findings = mon.Findings
+		h.Counts = mon.Counts
 	})
-	return
+	return h
+}
+
+// chargedProps: which properties a model/implementation disagreement on an operation of this kind
+// is charged to (the properties whose theorems unfold the model function of that operation).
+func chargedProps(opKind, mismatchKind string) []string {
+	if mismatchKind == "wakes" {
+		return []string{"C10", "C09"}
+	}
+	switch opKind {
+	case "publish", "msg":
+		return []string{"C01", "C02", "C05", "C07", "C14"}
+	case "pull":
+		return []string{"C01", "C02", "C04", "C05", "C06", "C14"}
+	case "ack":
+		return []string{"C03", "C01"}
+	case "nack":
+		return []string{"C03", "C04", "C06"}
+	case "delay":
+		return []string{"C03", "C04"}
+	case "dl_sweep":
+		return []string{"C06"}
+	case "seek_time", "seek_snap", "snapshot", "delete_snap":
+		return []string{"C13"}
+	case "expire_subs":
+		return []string{"C14", "C15"}
+	case "set_delay":
+		return []string{"C14"}
+	case "create_topic", "delete_topic", "create_sub", "delete_sub":
+		return []string{"C12", "C17", "C01"}
+	case "advance":
+		return nil
+	}
+	if strings.HasPrefix(opKind, "prune_") {
+		return []string{"C15"}
+	}
+	return []string{"C01"}
+}
+
+// opOfLine returns the operation kind a protocol line belongs to (a dump line belongs to the
+// operation before it).
+func opOfLine(lines []string, i int) string {
+	for ; i >= 0; i-- {
+		k := strings.SplitN(lines[i], " ", 2)[0]
+		if k != "dump" {
+			return k
+		}
+	}
+	return ""
+}
+
+func mismatchKind(answer string) string {
+	for _, w := range strings.Split(answer, " ") {
+		if strings.HasPrefix(w, "kind=") {
+			return w[5:]
+		}
+	}
+	return "error"
+}
+
+type coreCfg struct {
+	prop          string
+	profile       Profile
+	quickSeeds    int
+	thoroughSeeds int
+	nops          int
+	drain         bool
+	metamorphic   bool
+}
+
+func hasFinding(fs []Finding, prop, sig string) *Finding {
+	for i := range fs {
+		if fs[i].Prop == prop && (sig == "" || fs[i].Sig == sig) {
+			return &fs[i]
+		}
+	}
+	return nil
+}
+
+// shrink removes operations while the finding (prop, sig) persists.
+func shrink(t *testing.T, seed int64, ops []Op, prop, sig string) []Op {
+	still := func(cand []Op) bool {
+		h := RunHistory(t, seed, nil, cand, 0, false)
+		return hasFinding(h.Findings, prop, sig) != nil
+	}
+	cur := ops
+	n := 2
+	budget := 160
+	for len(cur) >= 2 && budget > 0 {
+		chunk := (len(cur) + n - 1) / n
+		reduced := false
+		for i := 0; i < len(cur) && budget > 0; i += chunk {
+			end := i + chunk
+			if end > len(cur) {
+				end = len(cur)
+			}
+			cand := append(append([]Op{}, cur[:i]...), cur[end:]...)
+			budget--
+			if len(cand) > 0 && still(cand) {
+				cur = cand
+				if n > 2 {
+					n--
+				}
+				reduced = true
+				break
+			}
+		}
+		if !reduced {
+			if n >= len(cur) {
+				break
+			}
+			n *= 2
+			if n > len(cur) {
+				n = len(cur)
+			}
+		}
+	}
+	return cur
+}
+
+type replayFile struct {
+	Property string   `json:"property"`
+	Sig      string   `json:"sig"`
+	What     string   `json:"what"`
+	Seed     int64    `json:"seed"`
+	Ops      []Op     `json:"ops"`
+	Trace    []string `json:"trace,omitempty"`
+	Note     string   `json:"note,omitempty"`
+}
+
+func writeReplay(name string, rf replayFile) string {
+	p := ReplayPath(name)
+	b, _ := json.MarshalIndent(rf, "", " ")
+	os.WriteFile(p, b, 0o644)
+	return p
+}
+
+func traceOf(lines []string, max int) []string {
+	var out []string
+	for _, l := range lines {
+		if !strings.HasPrefix(l, "dump") {
+			if len(l) > 400 {
+				l = l[:400] + "…"
+			}
+			out = append(out, l)
+		}
+	}
+	if len(out) > max {
+		out = out[len(out)-max:]
+	}
+	return out
+}
+
+// runCore is the runner shared by the history properties.
+func runCore(t *testing.T, cfg coreCfg) {
+	st := NewStats()
+	defer st.Write()
+	m, err := StartModel()
+	if err != nil {
+		t.Fatal(err)
+	}
+	defer m.Close()
+	if rp := os.Getenv("VERIF_REPLAY"); rp != "" {
+		replayCore(t, m, rp)
+		return
+	}
+	seeds := cfg.quickSeeds
+	if Tier() == "thorough" {
+		seeds = cfg.thoroughSeeds
+	}
+	if os.Getenv("VERIF_WIDEN") != "" {
+		seeds *= 3
+	}
+	base := Seed()
+	nOps, nHist, disagreements := 0, 0, 0
+	reportedSig := map[string]bool{}
+	// corpus of minimised past failures runs first
+	corpus, _ := filepath.Glob(filepath.Join(corpusDir(), "*.json"))
+	for _, cf := range corpus {
+		b, err := os.ReadFile(cf)
+		if err != nil {
+			continue
+		}
+		var rf replayFile
+		if json.Unmarshal(b, &rf) != nil {
+			continue
+		}
+		h := RunHistory(t, rf.Seed, nil, rf.Ops, 0, false)
+		st.Count("corpus_histories", 1)
+		for _, f := range h.Findings {
+			if f.Prop == cfg.prop && !reportedSig[f.Sig] {
+				reportedSig[f.Sig] = true
+				st.Violate(Violation{What: fmt.Sprintf("[%s] corpus history %s: %s", f.Sig, filepath.Base(cf), f.What), Replay: cf, FoundInput: true, Sig: f.Sig})
+			}
+		}
+		if d, err := m.Check(h.Lines); err == nil && d != nil {
+			for _, p := range chargedProps(opOfLine(h.Lines, d.LineNo), mismatchKind(d.Answer)) {
+				if p == cfg.prop && !reportedSig["correspondence"] {
+					reportedSig["correspondence"] = true
+					st.Violate(Violation{What: "correspondence broken on corpus history " + filepath.Base(cf) + ": " + d.String(), Replay: cf, FoundInput: false, Sig: "correspondence"})
+				}
+			}
+		}
+	}
+	for s := 0; s < seeds; s++ {
+		seed := base*100003 + int64(s)
+		gen := NewGen(seed, cfg.profile)
+		h := RunHistory(t, seed, gen, nil, cfg.nops, cfg.drain)
+		nHist++
+		nOps += len(h.Ops)
+		for _, r := range h.Results {
+			st.Count("op_"+r.Op.K, 1)
+			if strings.HasPrefix(r.Resp, "E:") {
+				st.Count("err_"+r.Resp, 1)
+			}
+		}
+		for k, v := range h.Counts {
+			st.Count("mon_"+k, v)
+		}
+		st.Distinct(fmt.Sprint(seed))
+		if s < 2 {
+			st.Sample(traceOf(h.Lines, 12))
+		}
+		// monitors first: a concrete failing history is the strongest report
+		for _, f := range h.Findings {
+			if f.Prop != cfg.prop || reportedSig[f.Sig] {
+				continue
+			}
+			reportedSig[f.Sig] = true
+			small := shrink(t, seed, h.Ops, f.Prop, f.Sig)
+			hs := RunHistory(t, seed, nil, small, 0, false)
+			what := f.What
+			if g := hasFinding(hs.Findings, f.Prop, f.Sig); g != nil {
+				what = g.What
+			}
+			p := writeReplay(fmt.Sprintf("%s-%s-%d.json", cfg.prop, f.Sig, seed), replayFile{Property: cfg.prop, Sig: f.Sig, What: what, Seed: seed, Ops: small, Trace: traceOf(hs.Lines, 60)})
+			st.Violate(Violation{What: fmt.Sprintf("[%s] %s (history of %d operations, shrunk from %d)", f.Sig, what, len(small), len(h.Ops)), Replay: p, FoundInput: true, Sig: f.Sig})
+		}
+		// correspondence
+		d, err := m.Check(h.Lines)
+		if err != nil {
+			t.Fatal(err)
+		}
+		if d != nil {
+			kind := mismatchKind(d.Answer)
+			opk := opOfLine(h.Lines, d.LineNo)
+			charged := false
+			for _, p := range chargedProps(opk, kind) {
+				if p == cfg.prop {
+					charged = true
+				}
+			}
+			st.Count("disagreements_any", 1)
+			if charged {
+				disagreements++
+				if !reportedSig["correspondence"] {
+					reportedSig["correspondence"] = true
+					p := writeReplay(fmt.Sprintf("%s-correspondence-%d.json", cfg.prop, seed), replayFile{Property: cfg.prop, Sig: "correspondence", Seed: seed, Ops: h.Ops,
+						What:  "model and implementation disagree: " + d.String(),
+						Trace: traceOf(h.Lines[:d.LineNo+1], 40),
+						Note:  "correspondence Mmmbbb.step vs /repo no longer checks on this history (operation kind " + opk + ", " + kind + "); no monitor of this property fired on it"})
+					st.Violate(Violation{What: "correspondence with the model broken on operation " + opk + " (" + kind + "): " + d.String(), Replay: p, FoundInput: false, Sig: "correspondence"})
+				}
+			}
+		}
+		if len(st.Violations) > 0 && hasConcrete(st.Violations) && s > seeds/3 {
+			break
+		}
+	}
+	if cfg.metamorphic {
+		runMetamorphic(t, st, cfg, base)
+	}
+	st.Set("evaluations", nOps)
+	st.Set("histories", nHist)
+	st.Set("traces_validated_against_impl", nHist-disagreements)
+	st.Set("rule", "random API-level histories (profile "+cfg.profile.Name+") over 4 topics and 4-9 subscriptions with random filter/ordering/retry/dead-letter/retention configuration; one evaluation = one executed operation, checked by the implementation-side monitors and compared (response, wake set, full dump of the five tables) with the Lean model; distinct = distinct seeds (each yields a different history)")
+	st.Summary = fmt.Sprintf("histories=%d ops=%d disagreements=%d", nHist, nOps, disagreements)
+}
+
+func hasConcrete(vs []Violation) bool {
+	for _, v := range vs {
+		if v.FoundInput {
+			return true
+		}
+	}
+	return false
+}
+
+func replayCore(t *testing.T, m *Model, path string) {
+	b, err := os.ReadFile(path)
+	if err != nil {
+		t.Fatal(err)
+	}
+	var rf replayFile
+	if err := json.Unmarshal(b, &rf); err != nil {
+		t.Fatal(err)
+	}
+	h := RunHistory(t, rf.Seed, nil, rf.Ops, 0, false)
+	outs, _ := m.Replay(h.Lines)
+	for i, l := range h.Lines {
+		if strings.HasPrefix(l, "dump") {
+			if i < len(outs) && outs[i] != "ok" {
+				fmt.Println("   model:", outs[i][:min(len(outs[i]), 300)])
+			}
+			continue
+		}
+		a := ""
+		if i < len(outs) {
+			a = outs[i]
+		}
+		fmt.Printf("%s\n   model: %s\n", l, a)
+	}
+	for _, f := range h.Findings {
+		fmt.Printf("MONITOR %s/%s at op %d: %s\n", f.Prop, f.Sig, f.At, f.What)
+	}
+}
+
+// runMetamorphic: the same client history with and without maintenance jobs spliced in must look
+// the same to clients (C15).
+func runMetamorphic(t *testing.T, st *Stats, cfg coreCfg, base int64) {
+	pairs := 12
+	if Tier() == "thorough" {
+		pairs = 150
+	}
+	for s := 0; s < pairs; s++ {
+		seed := base*7001 + int64(s)
+		p := cfg.profile
+		p.NoSeek = s%3 != 0 // seeks over pruned rows are the documented exception; keep a third with seeks
+		gen := NewGen(seed, p)
+		with := RunHistory(t, seed, gen, nil, cfg.nops, true)
+		var stripped []Op
+		for _, op := range with.Ops {
+			if strings.HasPrefix(op.K, "prune_") {
+				continue
+			}
+			stripped = append(stripped, op)
+		}
+		without := RunHistory(t, seed, nil, stripped, 0, false)
+		a := ClientTrace(with.Results, nOfPayload)
+		b := ClientTrace(without.Results, nOfPayload)
+		st.Count("metamorphic_pairs", 1)
+		diff := -1
+		for i := 0; i < len(a) || i < len(b); i++ {
+			if i >= len(a) || i >= len(b) || a[i] != b[i] {
+				diff = i
+				break
+			}
+		}
+		if diff >= 0 {
+			sig := "prune-visible"
+			hasSeek := false
+			for _, op := range with.Ops {
+				if op.K == "seek_time" || op.K == "seek_snap" {
+					hasSeek = true
+				}
+			}
+			if hasSeek {
+				sig = "prune-visible-after-seek"
+			}
+			x, y := "<end>", "<end>"
+			if diff < len(a) {
+				x = a[diff]
+			}
+			if diff < len(b) {
+				y = b[diff]
+			}
+			pth := writeReplay(fmt.Sprintf("C15-%s-%d.json", sig, seed), replayFile{Property: "C15", Sig: sig, Seed: seed, Ops: with.Ops,
+				What: fmt.Sprintf("client-visible step %d differs: with maintenance %q / without %q", diff, x, y)})
+			st.Violate(Violation{What: fmt.Sprintf("[%s] running the maintenance jobs changed what clients observe: step %d with jobs %q, without %q", sig, diff, x, y), Replay: pth, FoundInput: true, Sig: sig})
+			return
+		}
+	}
 }
 
 func TestCoreSmoke(t *testing.T) {
@@ -73,24 +485,94 @@ func TestCoreSmoke(t *testing.T) {
 	for s := 0; s < seeds; s++ {
 		seed := int64(base*100000 + s)
 		gen := NewGen(seed, ProfileAll)
-		ops, _, lines := RunHistory(t, seed, gen, nil, nops)
-		d, err := m.Check(lines)
+		h := RunHistory(t, seed, gen, nil, nops, true)
+		for _, f := range h.Findings {
+			t.Errorf("seed %d: monitor %s/%s at op %d: %s", seed, f.Prop, f.Sig, f.At, f.What)
+		}
+		d, err := m.Check(h.Lines)
 		if err != nil {
 			t.Fatal(err)
 		}
 		if d != nil {
-			t.Errorf("seed %d (%d ops): %s", seed, len(ops), d)
+			t.Errorf("seed %d (%d ops): %s", seed, len(h.Ops), d)
 			if f := os.Getenv("TRACE_OUT"); f != "" {
-				os.WriteFile(f, []byte(strings.Join(lines, "\n")+"\n"), 0o644)
-			}
-			if os.Getenv("VERBOSE") != "" {
-				for i, l := range lines {
-					if i <= d.LineNo && l[:4] != "dump" {
-						t.Log(l)
-					}
-				}
+				os.WriteFile(f, []byte(strings.Join(h.Lines, "\n")+"\n"), 0o644)
 			}
 			return
 		}
+		if t.Failed() {
+			return
+		}
 	}
+}
+
+var (
+	profC01 = Profile{Name: "C01", Publish: 6, Pull: 6, Ack: 3, Nack: 2, Delay: 2, Advance: 4, Seek: 1, Snap: 1, Maint: 3, Sweep: 1, Churn: 1}
+	profC03 = Profile{Name: "C03", Publish: 5, Pull: 7, Ack: 6, Nack: 4, Delay: 4, Advance: 4, Maint: 1, Sweep: 1, NoSeek: true}
+	profC04 = Profile{Name: "C04", Publish: 4, Pull: 9, Ack: 1, Nack: 3, Delay: 4, Advance: 6, NoSeek: true, NoDL: true}
+	profC05 = Profile{Name: "C05", Publish: 7, Pull: 7, Ack: 5, Nack: 2, Delay: 1, Advance: 4, Maint: 2, Sweep: 1, Seek: 1, Snap: 1, OrderedOnly: true}
+	profC06 = Profile{Name: "C06", Publish: 5, Pull: 8, Ack: 1, Nack: 4, Delay: 2, Advance: 5, Sweep: 3, Churn: 1}
+	profC13 = Profile{Name: "C13", Publish: 6, Pull: 5, Ack: 5, Nack: 1, Advance: 3, Seek: 4, Snap: 5, Maint: 1}
+	profC14 = Profile{Name: "C14", Publish: 5, Pull: 6, Ack: 1, Advance: 8, Seek: 1, Maint: 4, BigAdvance: true}
+	profC15 = Profile{Name: "C15", Publish: 5, Pull: 6, Ack: 4, Nack: 1, Advance: 5, Maint: 8, Sweep: 1, Churn: 2, Seek: 1, Snap: 1, BigAdvance: true}
+)
+
+func TestC01(t *testing.T) {
+	runCore(t, coreCfg{prop: "C01", profile: profC01, quickSeeds: 40, thoroughSeeds: 700, nops: 100, drain: true})
+}
+func TestC02(t *testing.T) {
+	runCore(t, coreCfg{prop: "C02", profile: ProfileAll, quickSeeds: 40, thoroughSeeds: 700, nops: 100, drain: true})
+}
+func TestC03(t *testing.T) {
+	runCore(t, coreCfg{prop: "C03", profile: profC03, quickSeeds: 40, thoroughSeeds: 700, nops: 100})
+}
+func TestC04(t *testing.T) {
+	runCore(t, coreCfg{prop: "C04", profile: profC04, quickSeeds: 40, thoroughSeeds: 700, nops: 100})
+}
+func TestC05(t *testing.T) {
+	runCore(t, coreCfg{prop: "C05", profile: profC05, quickSeeds: 40, thoroughSeeds: 700, nops: 100, drain: true})
+}
+func TestC06(t *testing.T) {
+	runCore(t, coreCfg{prop: "C06", profile: profC06, quickSeeds: 40, thoroughSeeds: 700, nops: 100, drain: true})
+}
+func TestC13(t *testing.T) {
+	runCore(t, coreCfg{prop: "C13", profile: profC13, quickSeeds: 40, thoroughSeeds: 700, nops: 100})
+}
+func TestC14(t *testing.T) {
+	runCore(t, coreCfg{prop: "C14", profile: profC14, quickSeeds: 40, thoroughSeeds: 700, nops: 100})
+}
+func TestC15(t *testing.T) {
+	runCore(t, coreCfg{prop: "C15", profile: profC15, quickSeeds: 25, thoroughSeeds: 400, nops: 100, metamorphic: true})
+}
+
+// TestShrink: developer helper — run one seed of ProfileAll, shrink the first finding, print the replay.
+func TestShrink(t *testing.T) {
+	seed := int64(envInt("SEED", 0))
+	if seed == 0 {
+		t.Skip()
+	}
+	gen := NewGen(seed, ProfileAll)
+	h := RunHistory(t, seed, gen, nil, envInt("NOPS", 100), true)
+	if len(h.Findings) == 0 {
+		t.Log("no finding")
+		return
+	}
+	f := h.Findings[0]
+	small := shrink(t, seed, h.Ops, f.Prop, f.Sig)
+	hs := RunHistory(t, seed, nil, small, 0, false)
+	for _, op := range small {
+		fmt.Println(op.String())
+	}
+	for _, g := range hs.Findings {
+		fmt.Printf("FINDING %s/%s at %d: %s\n", g.Prop, g.Sig, g.At, g.What)
+	}
+	p := writeReplay("dev-shrink.json", replayFile{Property: f.Prop, Sig: f.Sig, Seed: seed, Ops: small, What: f.What})
+	fmt.Println("replay:", p)
+}
+
+func corpusDir() string {
+	if d := os.Getenv("VERIF_CORPUS"); d != "" {
+		return d
+	}
+	return "/verif/corpus"
 }
